@@ -34,6 +34,22 @@ Theorem C19_name_roundtrip : forall cs rest, forallb is_scalar_value cs = true -
     decode_name (Gen_WasmPack.write_bytes_vec (utf8_encode cs) ++ rest) = Some (cs, rest).
 Proof. intros. rewrite Agree_WasmPack.agree_write_bytes_vec. apply name_roundtrip. assumption. Qed.
 
+(** section sizes: one section, and a whole module of any number of sections of any sizes, are framed exactly
+    (the size field is the regenerated unsigned packer; the id/size/payload layout of [write_section] is the
+    hand-written model of <X>Section.WriteTo, tied to the code by the whole-module cases of the correspondence) *)
+Theorem C19_section_roundtrip : forall id payload rest,
+    decode_section (id :: Gen_WasmPack.pack_integer (Z.of_nat (length payload)) ++ payload ++ rest) = Some (id, payload, rest).
+Proof.
+  intros. rewrite Agree_WasmPack.agree_pack_integer.
+  change (id :: pack_integer (Z.of_nat (length payload)) ++ payload ++ rest) with
+         (id :: (pack_integer (Z.of_nat (length payload)) ++ payload ++ rest)).
+  rewrite app_assoc. exact (section_roundtrip id payload rest).
+Qed.
+
+Theorem C19_module_framing : forall secs,
+    split_module (wasm_preamble ++ write_sections secs) = Some secs.
+Proof. exact module_framing_roundtrip. Qed.
+
 (** non-vacuity: concrete values at group and sign boundaries *)
 Example C19_examples :
   Gen_WasmPack.pack_integer 624485 = [229; 142; 38] /\ Gen_WasmPack.pack_signed (-123456) = [192; 187; 120] /\
@@ -46,4 +62,6 @@ Eval compute in "ASSUMPTIONS C19_signed_roundtrip"%string. Print Assumptions C19
 Eval compute in "ASSUMPTIONS C19_const_uses_signed"%string. Print Assumptions C19_const_uses_signed.
 Eval compute in "ASSUMPTIONS C19_bytes_vec_roundtrip"%string. Print Assumptions C19_bytes_vec_roundtrip.
 Eval compute in "ASSUMPTIONS C19_name_roundtrip"%string. Print Assumptions C19_name_roundtrip.
+Eval compute in "ASSUMPTIONS C19_section_roundtrip"%string. Print Assumptions C19_section_roundtrip.
+Eval compute in "ASSUMPTIONS C19_module_framing"%string. Print Assumptions C19_module_framing.
 Eval compute in "END"%string.
